@@ -6,7 +6,7 @@ sys.path.insert(0, os.path.dirname(__file__))
 from coqgen import *
 
 URIS = ['/akn/za/act/2009/1', '/akn/za-cpt/act/by-law/2010/public-places', '/akn/na/judgment/nasc/2020/5',
-        '/akn/za/act/2009/10/afr@2012-06-01', '/akn/ke/act/ln/2011/5/swa@']
+        '/akn/za/act/2009/10/afr@2012-06-01', '/akn/ke/act/ln/2011/5/swa@', '/akn/za/act/2009/10/eng@2010-01-01/!main']
 PLACE = 'COMPONENT'
 
 def chr_ok(c):
